@@ -40,7 +40,19 @@ PROBES = {
     "C07_HAS_NULLOPT_ORD": "etl::optional<int> o; bool b = (o <= etl::nullopt) && (o > etl::nullopt) && (o >= etl::nullopt) && "
                            "(etl::nullopt <= o) && (etl::nullopt > o) && (etl::nullopt >= o); (void)b;",
     "C07_HAS_EXPECTED_UNEX_ASSIGN": "etl::expected<int,int> e; e = etl::unexpected<int>(1);",
-    "C07_HAS_OPTREF_CONV": "etl::optional<int&> a; etl::optional<int const&> c(a); (void)c;",
+    # optional<T&> from optional<U> (P2988): const sources (_C) / non-const lvalue and rvalue sources (_M); optional<int&> and
+    # optional<int> sources; constructor = direct- and copy-initialization
+    "C07_HAS_OPTREF_CTOR_C": "etl::optional<int&> const a; etl::optional<int> const v; etl::optional<int const&> c(a); "
+                             "etl::optional<int const&> d(v); etl::optional<int const&> f = a; etl::optional<int const&> g = v; "
+                             "(void)c; (void)d; (void)f; (void)g;",
+    "C07_HAS_OPTREF_CTOR_M": "etl::optional<int&> a; etl::optional<int> v; etl::optional<int const&> c(a); "
+                             "etl::optional<int const&> d(v); etl::optional<int const&> f(static_cast<etl::optional<int&>&&>(a)); "
+                             "etl::optional<int const&> g = a; etl::optional<int const&> h = v; "
+                             "etl::optional<int const&> i = static_cast<etl::optional<int&>&&>(a); "
+                             "(void)c; (void)d; (void)f; (void)g; (void)h; (void)i;",
+    "C07_HAS_OPTREF_ASSIGN_C": "etl::optional<int&> const a; etl::optional<int> const v; etl::optional<int const&> c; c = a; c = v;",
+    "C07_HAS_OPTREF_ASSIGN_M": "etl::optional<int&> a; etl::optional<int> v; etl::optional<int const&> c; c = a; c = v; "
+                               "c = static_cast<etl::optional<int&>&&>(a);",
     "C07_HAS_EXPECTED_EQ": "etl::expected<int,int> a; etl::expected<int,int> b; bool r = (a == b) && !(a != b); (void)r;",
     "C07_HAS_VALUE": "etl::optional<int> o(1); etl::expected<int,int> e; (void)o.value(); (void)e.value();",
 }
@@ -108,7 +120,7 @@ RULE = ("A case is a history: `new kind=var|opt|oref|exp alts=.. n=N` creates N 
         "copy/move assignment and construction, swap, the six comparisons, visit / visit_with_index and get_if<I> for every "
         "(from, to) pair of INDICES, same type at different indices included; the by-type forms and the converting forms from "
         "the repeated type must be rejected); optional<int|float|Trk|Mo|C|D|A|B|X> with a "
-        "partner optional<long|int>; optional<int&>; expected<int,Trk>, <Trk,int>, <int,float>, <Trk,Mo>, <int,C>, <Q,X>, <D,B> "
+        "partner optional<long|int>; optional<int&> (and optional<int const&> made from it and from optional<int>); expected<int,Trk>, <Trk,int>, <int,float>, <Trk,Mo>, <int,C>, <Q,X>, <D,B> "
         "(Trk: non-trivial copy/move/destructor, Mo: move-only; float incl. NaN; C, D, A, B: exactly one user-provided special member "
         "- copy ctor, move ctor, copy assignment, move assignment - the other three defaulted and trivial; Q, X: all four "
         "user-provided, X with a potentially-throwing copy ctor; each user-provided member leaves its own mark in the value, a "
@@ -124,7 +136,9 @@ RULE = ("A case is a history: `new kind=var|opt|oref|exp alts=.. n=N` creates N 
         "copy / move assignment / construction of the element and the moved-from argument are all visible); visit / "
         "visit_with_index with a non-variant argument before or after the variant and with no variant at all; optional: every pair x mixed "
         "optional<T>/optional<U>, nullopt and value forms in both operand orders, converting construction/assignment from "
-        "optional<U>, value_or/and_then/or_else on lvalues and rvalues; 3-variant visits over every index triple; all histories of "
+        "optional<U>, value_or/and_then/or_else on lvalues and rvalues; optional<T&>: every pair of bindings x every member, and "
+        "optional<int const&> direct-/copy-initialized and assigned (empty and bound target) from every state of an "
+        "optional<int&> (non-const lvalue, const lvalue, rvalue) and of an optional<int> (non-const, const lvalue); 3-variant visits over every index triple; all histories of "
         "depth 2 (thorough: 3) over a 27-31-operation alphabet; expected: == / != for every pair of states and value() (members etl "
         "does not have: known findings). Selector probes (`new kind=sel`, `sel a=<kind> alts=<kinds> how=ctor|assign`): which "
         "alternative variant<alts...>(arg) / `v = arg` ends up holding (or `nc`: not constructible / assignable), etl against "
@@ -185,7 +199,8 @@ THEOREMS = {
     "rel": [T + "varRel_eq", T + "optRel_eq"], "relm": [T + "optRel_eq"],
     "reln": [T + "optRelNullR_eq", T + "optRelNullL_eq"], "relv": [T + "optRelValR_eq", T + "optRelValL_eq"],
     "conv": [T + "convAssign_refines_partial", T + "convAssign_fallback_counterexample", T + "convCtor_refines", T + "step_refines_partial",
-             T + "run_refines_partial", T + "optional_refines", T + "optional_convCtor_refines", T + "select_eq", T + "selectK_eq", T + "narrow_eq"],
+             T + "run_refines_partial", T + "optional_refines", T + "optional_convCtor_refines", T + "select_eq", T + "selectK_eq", T + "narrow_eq",
+             T + "orefConv_eq"],
     "get_if": [T + "getIf_eq"], "value_or": [T + "valueOr_eq", T + "valueOrCat_eq", T + "expValueOr_eq", T + "expValueOrCat_eq"],
     "and_then": [T + "andThen_eq", T + "expAndThen_eq"],
     "or_else": [T + "orElse_eq", T + "orElseCat_eq", T + "expOrElse_eq"],
@@ -342,6 +357,16 @@ def gen_opt_exhaustive(add, thorough):
                    "swap s=0 with=1 via=member", "swap s=0 with=0", "rel s=0 with=1", "reln s=0", "reset s=0", "null s=0 how=ctor",
                    "bind s=0 c=2 how=assign", "bind s=0 c=2 how=ctor", "bind s=0 c=2 how=emplace", "write s=0 v=20"]:
             add(setup + [op, "get s=0", "get s=1", "rel s=0 with=1", "write s=0 v=5", "get s=2"], "oref")
+    # optional<int const&> from optional<int&> / optional<int>: every source state x source form x constructor (direct, copy-
+    # initialization) / assignment to an empty and to a bound target; the source and the other slots are shown after each line
+    for c0 in rstates:
+        setup = [new("oref"), bind(0, c0, "ctor"), "bind s=1 c=2 how=assign"]
+        for src in OREF_SRC:
+            for how in OREF_HOW:
+                add(setup + ["conv s=0 how=%s src=%s" % (how, src), "get s=0", "conv s=1 how=%s src=%s" % (how, src)], "oref-conv")
+        for src in OREF_SRC:
+            add(setup + ["write s=1 v=7", "conv s=0 how=assign src=%s pre=2" % src, "conv s=0 how=assign src=%s pre=%d" % (src, c0 or 0),
+                         "get s=0", "get s=1"], "oref-conv")
 
 
 def exp_states(alts):
@@ -469,6 +494,10 @@ def rand_exp(rnd, alts, length):
     return lines
 
 
+OREF_SRC = ["ref", "cref", "rref", "val", "cval"]
+OREF_HOW = ["ctor", "implicit", "assign"]
+
+
 def rand_oref(rnd, length):
     n = 3
     lines = [new("oref", None, n)]
@@ -483,8 +512,12 @@ def rand_oref(rnd, length):
             lines.append("%s s=%d from=%d mv=%d" % (rnd.choice(["assign", "ctor"]), k, j, rnd.randrange(2)))
         elif r < 0.68:
             lines.append("swap s=%d with=%d%s" % (k, j, rnd.choice(["", " via=member"])))
-        elif r < 0.80:
+        elif r < 0.78:
             lines.append("write s=%d v=%d" % (k, rnd.randrange(1, 40)))
+        elif r < 0.88:
+            how = rnd.choice(OREF_HOW)
+            pre = " pre=%d" % rnd.randrange(3) if how == "assign" and rnd.random() < 0.5 else ""
+            lines.append("conv s=%d how=%s src=%s%s" % (k, how, rnd.choice(OREF_SRC), pre))
         else:
             lines.append(rnd.choice(["get s=%d" % k, "rel s=%d with=%d" % (k, j), "reln s=%d" % k]))
     return lines
@@ -542,8 +575,6 @@ def classify(case, k, row):
     op = case.lines[k].split(" ")[0]
     if op == "assign_unex" and case.lines[0].startswith("new kind=exp") and row.impl.startswith("nc"):
         return "F-C07-expected-no-unexpected-assign"
-    if op == "conv" and case.lines[0].startswith("new kind=oref") and row.impl.startswith("nc"):
-        return "F-C07-optional-ref-conversion"
     kind = re.match(r"new kind=(\w+)", [ln for ln in case.lines[:k + 1] if ln.startswith("new ")][-1]).group(1)
     if op == "rel" and kind == "exp" and row.impl.startswith("nc"):
         return "F-C07-expected-no-equality"
@@ -640,11 +671,16 @@ LEVEL_NOTE = ("Trusted: Lean kernel + propext/Classical.choice/Quot.sound; the h
               "std uses the element's own `!=`): hypothesis `hne`. Object lifetime (construct/destroy pairing) is property C03, not "
               "modelled here. optional<T&> is modelled as a nullable cell index and compared with a pointer reference written out in "
               "the harness (no std counterpart in libstdc++ 12). Members the std types have and the library does not (expected = "
-              "unexpected<G>, optional<T&> from optional<U>, expected ==/!=, optional/expected value()) are recorded as known findings, "
-              "each switched by a compile probe and replayed on every run.")
+              "unexpected<G>, expected ==/!=, optional/expected value()) are recorded as known findings, "
+              "each switched by a compile probe and replayed on every run. optional<T&> from optional<U> (P2988 converting "
+              "constructor / assignment; repaired by three fix commits) is switched by four compile probes (const / non-const "
+              "source x constructor / assignment): a form that stops compiling answers `nc`, which is a VIOLATION.")
 CORRESPONDENCE_ONLY = [
     "optional<T&> (bind/rebind, reset, copy, swap of the pointer, write-through, comparisons): the model is a nullable cell index; "
-    "compared with a pointer reference on every run, no theorem beyond the optional relational theorems it reuses",
+    "compared with a pointer reference on every run, no theorem beyond the optional relational theorems it reuses and "
+    "orefConv_eq (optional<T&> from optional<U>: has_value() ? addressof(*rhs) : nullptr equals the P2988 wording and never "
+    "dereferences an empty source); WHICH member a source form (const / non-const lvalue / rvalue; direct- / copy-initialization / "
+    "assignment) selects is the compiler's overload resolution, validated by R1/R2 on every form x source state",
     "which route a converting assignment takes (`direct` of Model.convAssign: the operator=(T&&) template is viable for class "
     "alternatives, and for optional unless T is scalar and U = T) and which implicit conversions exist with which rank (Model.ics): "
     "functions of the types, i.e. the compiler's overload resolution; given to the model as data and validated by "
